@@ -352,9 +352,10 @@ package nutsdb
 //@   ensures syncEnable ==> unsynced == old(unsynced)
 //@   modifies unsynced
 
+//@ spec func reservedOK(tx *Tx) bool = tx.ReservedStoreTxIDIdxes != nil && (forall f int64 :: has(tx.ReservedStoreTxIDIdxes, f) ==> tx.ReservedStoreTxIDIdxes[f] != nil)
 //@ func Tx.rotateActiveFile
 //@   requires[C14] lockMode == 2
-//@   requires tx != nil && tx.db != nil && tx.db.ActiveFile != nil && tx.db.ActiveFile.rwManager != nil && tx.ReservedStoreTxIDIdxes != nil
+//@   requires tx != nil && tx.db != nil && tx.db.ActiveFile != nil && tx.db.ActiveFile.rwManager != nil && reservedOK(tx)
 //@   requires tx.db.opt.EntryIdxMode == HintBPTSparseIdxMode ==> tx.db.ActiveBPTreeIdx != nil && tx.db.ActiveCommittedTxIdsIdx != nil
 //@   requires tx.db.BPTreeKeyEntryPosMap != nil
 //@   ensures[C10] result == nil ==> fresh(tx.db.ActiveFile) && tx.db.ActiveFile.rwManager != nil && tx.db.ActiveFile.writeOff == 0 &&
@@ -368,6 +369,7 @@ package nutsdb
 //@   modifies tx.db.MaxFileID, tx.db.ActiveFile, tx.db.BPTreeRootIdxes, elems(tx.db.BPTreeRootIdxes), tx.db.BPTreeKeyEntryPosMap, tx.db.ActiveBPTreeIdx, tx.db.ActiveCommittedTxIdsIdx,
 //@        entries(tx.ReservedStoreTxIDIdxes), all(Node.Next), all(BPTree.Filepath), all(BPTree.enabledKeyPosMap), all(BPTree.keyPosMap), queue, unsynced
 //@   ensures[C20] old(nodesOK(nil)) ==> nodesOK(nil)
+//@   ensures reservedOK(tx)
 //@   safety[C14] locks
 //@   safety[C20] panics
 
@@ -487,6 +489,7 @@ package nutsdb
 //@ func BPTree.insertIntoParent
 //@   requires t != nil && nodesOK(nil) && left != nil && allocated(left) && right != nil && allocated(right)
 //@   ensures nodesOK(nil) && result == nil
+//@   ensures old(t.root) != nil ==> t.root != nil
 //@   modifies alltype(Node), t.root, t.LastAddress, allelems(left.Keys), allelems(left.pointers)
 //@   safety[C20] panics
 //@   loops 1
@@ -501,6 +504,7 @@ package nutsdb
 //@ func BPTree.splitParent
 //@   requires t != nil && nodesOK(nil) && node != nil && allocated(node) && !node.isLeaf && node.KeysNum == order - 1 && 0 <= leftIndex && leftIndex <= node.KeysNum && right != nil && allocated(right)
 //@   ensures nodesOK(nil) && result == nil
+//@   ensures old(t.root) != nil ==> t.root != nil
 //@   modifies alltype(Node), t.root, t.LastAddress, allelems(node.Keys), allelems(node.pointers)
 //@   safety[C20] panics
 //@   loops 5
@@ -538,6 +542,7 @@ package nutsdb
 //@ func BPTree.splitLeaf
 //@   requires t != nil && nodesOK(nil) && leaf != nil && allocated(leaf) && leaf.isLeaf && leaf.KeysNum == order - 1 && recOK(pointer)
 //@   ensures nodesOK(nil) && result == nil
+//@   ensures old(t.root) != nil ==> t.root != nil
 //@   modifies alltype(Node), t.root, t.LastAddress, allelems(leaf.Keys), allelems(leaf.pointers)
 //@   safety[C20] panics
 //@   loops 4
@@ -574,6 +579,8 @@ package nutsdb
 //@   ensures forall x *Record :: old(allocated(x)) ==> (x.H == old(x.H) || x.H == h) && (x.E == old(x.E) || x.E == e)
 //@   ensures forall x *Record :: old(x.H != nil && x.H.meta != nil) ==> x.H != nil && x.H.meta != nil
 //@   ensures forall x *Record :: old(x.H.dataPos < 9223372036854775808) ==> x.H.dataPos < 9223372036854775808
+//@   ensures t.root != nil && result == nil
+//@   ensures forall t2 *BPTree :: t2 != t ==> t2.Filepath == old(t2.Filepath) && t2.root == old(t2.root)
 //@   modifies alltype(BPTree), alltype(Node), alltype(Record), allelems(t.root.Keys), allelems(t.root.pointers)
 //@   safety[C20] panics
 
@@ -637,10 +644,16 @@ package nutsdb
 //@   at call buildSortedSetIdx: assert[C07,C08] entry == tx.pendingWrites[i] && $arg1 == string(entry.Meta.bucket) && $arg2 == entry && entry.Meta.ds == DataStructureSortedSet
 
 //@ func Tx.buildTxIDRootIdx
-//@   assumed sparse mode: records the committed tx id in the active / reserved tx-id trees and their files
+//@   requires tx != nil && tx.db != nil && tx.db.ActiveCommittedTxIdsIdx != nil && nodesOK(nil)
+//@   requires reservedOK(tx)
 //@   ensures tx.db.opt.SyncEnable ==> unsynced == old(unsynced)
-//@   ensures old(nodesOK(nil)) ==> nodesOK(nil)
+//@   ensures nodesOK(nil)
 //@   modifies alltype(BPTree), alltype(Node), alltype(Record), queue, unsynced, allelems(tx.db.ActiveCommittedTxIdsIdx.root.Keys), allelems(tx.db.ActiveCommittedTxIdsIdx.root.pointers)
+//@   safety[C20] panics
+//@   loops 1
+//@   loop 1: modifies alltype(BPTree), alltype(Node), alltype(Record), queue, unsynced, allelems(tx.db.ActiveCommittedTxIdsIdx.root.Keys), allelems(tx.db.ActiveCommittedTxIdsIdx.root.pointers)
+//@   loop 1: invariant tx == old(tx) && tx.db == old(tx.db) && tx.ReservedStoreTxIDIdxes == old(tx.ReservedStoreTxIDIdxes) && nodesOK(nil) && (tx.db.opt.SyncEnable ==> unsynced == old(unsynced)) &&
+//@        (forall f int64 :: has(tx.ReservedStoreTxIDIdxes, f) ==> tx.ReservedStoreTxIDIdxes[f] != nil)
 //@ spec func metaOK(m *BucketMeta) bool = metaWF(m) && allocated(m) && len(m.start) < 2147483642 && len(m.end) < 2147483642
 //@ spec func metasOK(db *DB) bool = db.bucketMetas != nil && (forall b string :: has(db.bucketMetas, b) ==> metaOK(db.bucketMetas[b]))
 //@ func Tx.buildBucketMetaIdx
@@ -657,7 +670,7 @@ package nutsdb
 //@   safety[C20] panics
 
 //@ func Tx.Commit
-//@   requires tx != nil && (tx.db != nil ==> dbOK(tx.db) && pendingOK(tx) && tx.ReservedStoreTxIDIdxes != nil)
+//@   requires tx != nil && (tx.db != nil ==> dbOK(tx.db) && pendingOK(tx) && reservedOK(tx))
 //@   requires tx.db != nil ==> (tx.writable ==> lockMode == 2) && (!tx.writable ==> lockMode == 1) && (len(tx.pendingWrites) > 0 ==> tx.writable)
 //@   requires tx.db != nil && tx.db.opt.SyncEnable ==> unsynced == 0
 //@   requires[C20] tx.db != nil ==> applicable(tx.db) && treesOK(tx.db)
@@ -680,7 +693,7 @@ package nutsdb
 //@   loops 1
 //@   loop 1: invariant 0 <= i && i <= writesLen && tx == old(tx) && tx.db == old(tx.db) && tx.db != nil && writesLen == len(tx.pendingWrites) && lastIndex == writesLen - 1
 //@   loop 1: invariant tx.pendingWrites == old(tx.pendingWrites) && tx.id == old(tx.id) && tx.writable == old(tx.writable) && lockMode == old(lockMode)
-//@   loop 1: invariant dbOK(tx.db) && tx.db.opt == old(tx.db.opt) && tx.ReservedStoreTxIDIdxes != nil
+//@   loop 1: invariant dbOK(tx.db) && tx.db.opt == old(tx.db.opt) && reservedOK(tx)
 //@   loop 1: invariant tx.db.opt.EntryIdxMode == HintBPTSparseIdxMode ==> tx.db.ActiveBPTreeIdx != nil && tx.db.ActiveCommittedTxIdsIdx != nil && tx.db.bucketMetas != nil
 //@   loop 1: invariant tx.db.opt.EntryIdxMode == HintBPTSparseIdxMode ==> metasOK(tx.db)
 //@   loop 1: invariant[C10] forall j int :: i <= j && j < writesLen ==> allocated(tx.pendingWrites[j]) && entryWF(tx.pendingWrites[j]) && allocated(tx.pendingWrites[j].Meta) &&
@@ -2082,7 +2095,7 @@ package nutsdb
 //@   safety[C20] panics
 //@ func newTx
 //@   requires db != nil
-//@   ensures[C14] err == nil ==> fresh(tx) && tx.db == db && tx.writable == writable && len(tx.pendingWrites) == 0 && tx.ReservedStoreTxIDIdxes != nil && fresh(tx.pendingWrites)
+//@   ensures[C14] err == nil ==> fresh(tx) && tx.db == db && tx.writable == writable && len(tx.pendingWrites) == 0 && reservedOK(tx) && fresh(tx.pendingWrites)
 //@   ensures err != nil ==> tx == nil
 //@   modifies nothing
 //@   safety[C20] panics
@@ -2099,7 +2112,7 @@ package nutsdb
 //@ func DB.Begin
 //@   requires db != nil && lockMode == 0
 //@   ensures[C14] err == nil ==> tx != nil && tx.db == db && tx.writable == writable && (writable ==> lockMode == 2) && (!writable ==> lockMode == 1) && !db.closed
-//@   ensures[C14] err == nil ==> len(tx.pendingWrites) == 0 && pendingOK(tx) && tx.ReservedStoreTxIDIdxes != nil && fresh(tx) && fresh(tx.pendingWrites)
+//@   ensures[C14] err == nil ==> len(tx.pendingWrites) == 0 && pendingOK(tx) && reservedOK(tx) && fresh(tx) && fresh(tx.pendingWrites)
 //@   ensures[C12,C14] err != nil ==> tx == nil && lockMode == 0
 //@   ensures[C20] db.closed ==> err != nil
 //@   modifies lockMode
@@ -2179,7 +2192,7 @@ package nutsdb
 //@   safety[C20] panics
 //@   loops 1
 //@   loop 1: invariant -1 <= rangeindex && rangeindex < len(pendingMergeEntries) && db == old(db) && tx != nil && tx.db == db && tx.writable && lockMode == 2 && pendingOK(tx) &&
-//@        pendingMergeEntries == old(pendingMergeEntries) && entsOK(pendingMergeEntries) && tx.ReservedStoreTxIDIdxes != nil && rewrites == old(rewrites) && fresh(tx.pendingWrites)
+//@        pendingMergeEntries == old(pendingMergeEntries) && entsOK(pendingMergeEntries) && reservedOK(tx) && rewrites == old(rewrites) && fresh(tx.pendingWrites)
 //@   loop 1: invariant dbOK(db) && applicable(db) && db.opt.EntryIdxMode != HintBPTSparseIdxMode && (db.opt.SyncEnable ==> unsynced == 0) && treesOK(db) && removes == old(removes) && db.isMerging == old(db.isMerging)
 //@   loop 1: invariant[C20] nodesOK(nil)
 //@   loop 1: invariant forall d *DataFile :: old(allocated(d)) ==> d.rwManager == old(d.rwManager)
